@@ -225,6 +225,13 @@ func buildLayout(sc *Scn, runDirPrefix string) intoto.Layout {
 			}
 			s.ExpectedMaterials = append([][]string{{"DISALLOW", "STAMP.TXT"}, {"DISALLOW", up + "STAMP.TXT"}, {"disallow", "Stamp.Txt"}}, s.ExpectedMaterials...)
 		}
+		if sc.Defect == "rule-less-first-step-later-step-violates" {
+			if i == 0 {
+				s.ExpectedMaterials, s.ExpectedProducts = [][]string{}, [][]string{}
+			} else if i == 1 {
+				s.ExpectedProducts = [][]string{{"DISALLOW", "*"}}
+			}
+		}
 		if sc.Defect == "step-rule-fails-no-inspection-may-run" && i == 0 {
 			s.ExpectedProducts = [][]string{{"DISALLOW", "*"}}
 		}
@@ -342,6 +349,8 @@ func inspCommand(in InspSpec) []string {
 	case "rewrite":
 		// same size, same mtime, other content
 		return []string{"sh", "-c", "echo '" + in.Name + "' >> " + logPath + "; printf BBBB > " + in.Arg + " && touch -d @1577836800 " + in.Arg}
+	case "relscript":
+		return []string{"scripts/check.sh"}
 	case "gate":
 		// passes only when the parameter MODE is substituted by "release"
 		return []string{"sh", "-c", "echo '" + in.Name + "' >> " + logPath + "; test {MODE} = release"}
@@ -615,18 +624,37 @@ func baseScenario(r *lib.Rng, focus string, level int) *Scn {
 	return sc
 }
 
+// fourLinks: step i is carried out by four functionaries, threshold 2; two of them report one result, the other two
+// another one (each pair agrees internally): the counted links do not all agree, so the step must be rejected - always
+func fourLinks(sc *Scn, i int) {
+	st := &sc.Steps[i]
+	for _, p := range pool {
+		if len(st.Keys) >= 4 {
+			break
+		}
+		if !contains(st.Keys, p) {
+			st.Keys = append(st.Keys, p)
+		}
+	}
+	sort.Strings(st.Keys)
+	st.Keys = st.Keys[:4]
+	st.Signers = append([]string{}, st.Keys...)
+	st.Threshold = 2
+	sc.DefectArg = strconv.Itoa(i) + ":0"
+}
+
 // defect catalogue per focus family
 var defects = map[string][]string{
 	"c01": {"none", "none", "alter-expires", "alter-readme", "alter-threshold", "alter-rule", "alter-command", "alter-insp-run", "alter-keys",
 		"alter-pubkeys", "drop-signature", "corrupt-signature", "dup-signature", "reorder-signatures", "forged-keyid", "extra-foreign-signature",
 		"verifier-plus-one", "verifier-minus-one", "verifier-empty", "signed-by-others", "link-instead-of-layout",
 		"alter-step-unknown-member", "alter-step-drop-threshold", "alter-inspection-unknown-member", "alter-key-unknown-member",
-		"alter-dsse-payload-type-case", "alter-dsse-payload-type-params",
+		"alter-dsse-payload-type-case", "alter-dsse-payload-type-params", "alter-signed-repeated-keys-member", "alter-signed-repeated-readme-member",
 		"ca-root-unparsable", "ca-root-public-key-only", "ca-intermediate-unparsable", "ca-root-valid-unused",
 		"dup-signature-missing-key", "keyid-collision-history",
 		"case-variant-member-evil-first-dsse", "case-variant-member-evil-last-dsse", "case-variant-member-evil-first-legacy", "case-variant-member-evil-last-legacy",
 		"verifier-key-malformed-legacy", "verifier-key-malformed-dsse", "alter-payload-strip-sig-padding", "verifier-key-cert-only-forged"},
-	"c05": {"disagree-extra-product-0", "disagree-extra-product-1", "extra-disagreeing-link-uppercase-keyid", "extra-agreeing-link-uppercase-keyid",
+	"c05": {"four-links-two-groups", "rule-less-first-step-later-step-violates", "disagree-extra-product-0", "disagree-extra-product-1", "extra-disagreeing-link-uppercase-keyid", "extra-agreeing-link-uppercase-keyid",
 		"required-link-missing", "required-link-unreadable", "none", "disagree-product-digest", "disagree-product-path", "disagree-material-digest", "disagree-algorithm", "disagree-algorithm-material",
 		"junk-uncounted-badsig", "junk-uncounted-unauthorised", "extra-agreeing-link", "byproducts-differ",
 		"threshold1-disagree-product-digest", "threshold1-disagree-algorithm", "threshold1-agree",
@@ -638,7 +666,7 @@ var defects = map[string][]string{
 	"c06": {"sub-expired", "sub-undated", "sub-rfc3339-offset", "none", "expired-long", "expired-2s", "future-1h", "garbage", "empty", "rfc3339-offset", "date-only", "year-9999", "fraction", "lowercase"},
 	"c08": {"sub-same-step-name-upper-link-missing", "sub-same-step-name-both-present", "sub-wide-9", "sub-defective-beside-good-link-large", "sub-insp-named-like-first-step", "sub-insp-named-like-last-step", "sub-defective-beside-good-link", "sub-ok", "sub-ok", "sub-badsig", "sub-expired", "sub-missing-link", "sub-rule-violation", "sub-unauthorised", "sub-nested", "sub-nested-defect", "sub-summary-mismatch", "sub-summary-mismatch-other-algorithm"},
 	"c10": {"history-same-params", "history-diff-params", "history-no-params", "history-mixed", "mixed-cert-key", "mixed-cert-key", "mixed-cert-key-unsorted", "summary-byproducts", "direct-unclean",
-		"history-empty-command-argument", "history-dir-relative-inspection-fails-midway", "mixed-cert-key-dir", "history-layout-keys-share-short-id", "history-multi-alg", "history-multi-alg-mismatch", "history-whitespace-rule", "history-param-value-has-marker", "mixed-cert-key-marker-constraint", "history-threshold-zero"},
+		"history-empty-command-argument", "history-dir-relative-inspection-fails-midway", "mixed-cert-key-dir", "history-layout-keys-share-short-id", "history-four-links-two-groups", "history-dir-inspection-relative-command", "history-multi-alg", "history-multi-alg-mismatch", "history-whitespace-rule", "history-param-value-has-marker", "mixed-cert-key-marker-constraint", "history-threshold-zero"},
 	"c09": {"star-class-pattern-product-added", "dangling-symlink-added", "step-rule-fails-no-inspection-may-run", "symlinked-dir-before-tampered-product", "symlinked-dir-untouched", "product-crlf-rewritten", "product-crlf-rewritten-normalised", "large-product-tampered-tail", "large-product-untouched", "product-added-ignorable-name-0", "product-added-ignorable-name-1", "product-added-ignorable-name-2", "product-added-ignorable-name-3",
 		"product-added-ignorable-name-4", "product-added-ignorable-name-5", "product-added-ignorable-name-6", "product-added-ignorable-name-7",
 		"product-added-ignorable-name-8", "product-added-ignorable-name-9", "product-added-ignorable-name-10", "case-variant-rule-earlier", "product-modified-backslash-decoy", "sha512-chain-product-modified", "escaped-pattern-product-modified", "escaped-pattern-none", "insp-rewrite-same-mtime", "product-all-removed", "require-after-consume", "none", "insp-fail", "insp-fail-255", "insp-missing", "insp-empty", "product-modified", "product-added", "product-removed",
@@ -686,6 +714,15 @@ func genScenario(r *lib.Rng, focus string, idx int) *Scn {
 		case "alter-dsse-payload-type-case", "alter-dsse-payload-type-params":
 			sc.Wrapper = "dsse"
 			sc.Expect = "reject"
+		case "alter-signed-repeated-keys-member":
+			// legacy wrapper: a second "keys" member (one more key) is inserted IN FRONT of the signed one; decoders that merge
+			// repeated members enforce a key table that nobody signed
+			sc.Wrapper = "legacy"
+			sc.Expect = "reject"
+		case "alter-signed-repeated-readme-member":
+			// ... whereas a repeated scalar member in front of the signed one changes nothing that is enforced: the
+			// later (signed) value wins everywhere, so this file is still the signed layout
+			sc.Wrapper = "legacy"
 		case "alter-step-drop-threshold":
 			// the member "threshold": 1 of the first step is deleted from the file after signing
 			sc.Steps[0].Threshold = 1
@@ -782,6 +819,17 @@ func genScenario(r *lib.Rng, focus string, idx int) *Scn {
 		}
 		if strings.Contains(d, "threshold1-foreign-signature-entry-") || strings.HasPrefix(d, "disagree-extra-product-") {
 			sc.DefectArg = strconv.Itoa(i) + ":" + d[len(d)-1:]
+		}
+		if d == "four-links-two-groups" {
+			fourLinks(sc, i)
+		}
+		if d == "rule-less-first-step-later-step-violates" {
+			// the first step carries no artifact rules at all (nothing to check for it); the rules of the SECOND step forbid
+			// what it produced: every item's rules are evaluated, whatever the items before it look like
+			for len(sc.Steps) < 2 {
+				sc.Steps = append(sc.Steps, StepSpec{Name: fmt.Sprintf("s0_%d", len(sc.Steps)), Keys: []string{pool[0]}, Threshold: 1, Signers: []string{pool[0]}, Op: "create"})
+			}
+			sc.Params = nil
 		}
 		if strings.HasSuffix(d, "-link-uppercase-keyid") {
 			// a third authorised functionary whose key id is written in UPPER-CASE hex (ids are labels; the layout, the
@@ -1128,6 +1176,22 @@ func genScenario(r *lib.Rng, focus string, idx int) *Scn {
 			sc.Steps[0].Threshold = 1
 			sc.Reps = 40
 			sc.History = []map[string]string{nil, nil}
+		case "history-four-links-two-groups":
+			sc.Params = nil
+			fourLinks(sc, 0)
+			sc.Expect = "reject"
+			sc.Reps = 24
+			sc.History = []map[string]string{nil, nil}
+		case "history-dir-inspection-relative-command":
+			// verification with a run directory; the inspection command is a script named by a path relative to that
+			// directory.  Starting it must not rewrite the command in the caller's layout
+			sc.Params = nil
+			sc.Entry = "dir"
+			sc.Insps = []InspSpec{{Name: "relscript", Kind: "relscript"}}
+			sc.ExpectLog = []string{"relscript"}
+			sc.InspPermissive = true
+			sc.History = []map[string]string{nil, nil, nil}
+			sc.Reps = 2
 		case "history-empty-command-argument":
 			// the expected command of every step carries empty arguments (legal): comparing it with the recorded command
 			// must not rewrite the caller's layout
@@ -1436,12 +1500,20 @@ func materialise(sc *Scn, root string, r *lib.Rng) *world {
 	for p, c := range sc.ExtraFinal {
 		final[p] = c
 	}
+	for _, in := range sc.Insps {
+		if in.Kind == "relscript" {
+			final["scripts/check.sh"] = "#!/bin/sh\necho '" + in.Name + "' >> " + logPath + "\n"
+		}
+	}
 	curAlg, curNorm = "sha256", false
 	sc.ExpectSummary = wrapperTag(w.layoutMeta) + lib.ShowLinkCore(intoto.Link{Name: "summary-name", Materials: w.expMat, Products: w.expProd})
 	for p, c := range final {
 		fp := filepath.Join(w.prodDir, p)
 		os.MkdirAll(filepath.Dir(fp), 0o755)
 		os.WriteFile(fp, []byte(c), 0o644)
+		if strings.HasSuffix(p, ".sh") {
+			os.Chmod(fp, 0o755)
+		}
 		os.Chtimes(fp, time.Unix(1577836800, 0), time.Unix(1577836800, 0)) // fixed mtime (as reproducible builds do)
 	}
 	if sc.Defect == "dangling-symlink-added" {
@@ -1460,7 +1532,7 @@ func materialise(sc *Scn, root string, r *lib.Rng) *world {
 
 // alterations of the layout FILE that the strict loader may refuse outright: refusing the file is one way of not
 // enforcing it; if it loads, verification must reject it like any other alteration of signed content
-var loadMayFail = map[string]bool{"alter-step-unknown-member": true, "alter-step-drop-threshold": true, "alter-inspection-unknown-member": true,
+var loadMayFail = map[string]bool{"alter-signed-repeated-keys-member": true, "alter-signed-repeated-readme-member": true, "alter-step-unknown-member": true, "alter-step-drop-threshold": true, "alter-inspection-unknown-member": true,
 	"alter-key-unknown-member": true, "alter-dsse-payload-type-case": true, "alter-dsse-payload-type-params": true}
 
 func stepIndex(sc *Scn) int { i, _ := strconv.Atoi(strings.Split(sc.DefectArg, ":")[0]); return i }
@@ -1504,6 +1576,22 @@ func applyLinkDefects(sc *Scn, w *world, r *lib.Rng) {
 		return
 	}
 	if strings.Contains(sc.Defect, "-sub-beside-link-") || strings.Contains(sc.Defect, "-twin-sublayouts-") {
+		return
+	}
+	if strings.HasSuffix(sc.Defect, "four-links-two-groups") {
+		st := sc.Steps[stepIndex(sc)]
+		for _, who := range st.Signers[2:] {
+			kp := pk(who)
+			fp := filepath.Join(w.linkDir, linkFile(st.Name, kp.Pub.KeyID))
+			m, err := intoto.LoadMetadata(fp)
+			must(err)
+			l := m.GetPayload().(intoto.Link)
+			ks := lib.SortedKeys(l.Products)
+			l.Products[ks[len(ks)-1]] = hobj("what the second pair of functionaries built")
+			m2 := wrap(sc, l)
+			mustSign(m2, kp.Priv)
+			must(m2.Dump(fp))
+		}
 		return
 	}
 	if sc.Focus == "c10" && sc.Defect == "summary-byproducts" {
@@ -1800,6 +1888,19 @@ func applyLayoutDefects(sc *Scn, w *world, r *lib.Rng) {
 				break
 			}
 		})
+	case "alter-signed-repeated-keys-member", "alter-signed-repeated-readme-member":
+		raw, err := os.ReadFile(p)
+		must(err)
+		ins := `"readme": "inserted in front of the signed one", `
+		if sc.Defect == "alter-signed-repeated-keys-member" {
+			k := pk("ed-c01-intruder").Pub
+			kb, _ := json.Marshal(k)
+			ins = `"keys": {"` + k.KeyID + `": ` + string(kb) + `}, `
+		}
+		txt := string(raw)
+		i := strings.Index(txt, `"signed"`)
+		j := i + strings.Index(txt[i:], "{")
+		must(os.WriteFile(p, []byte(txt[:j+1]+ins+txt[j+1:]), 0o644))
 	case "alter-dsse-payload-type-case":
 		editJSON(p, func(wr, pl map[string]interface{}) { wr["payloadType"] = "Application/Vnd.In-Toto+JSON" })
 	case "alter-dsse-payload-type-params":
@@ -2509,6 +2610,10 @@ func coqModelAt(sc *Scn, w *world, params map[string]string, nowNs int64) string
 				cmds = append(cmds, lib.CoqPair(lib.CoqStrList(c), k))
 				continue
 			}
+			if in.Kind == "relscript" {
+				cmds = append(cmds, lib.CoqPair(lib.CoqStrList(inspCommand(in)), "CLog"))
+				continue
+			}
 			kind := map[string]string{"log": "CLog", "rewrite": "(CTouch " + lib.CoqStr(in.Arg) + " " + lib.CoqStr(sha("BBBB")) + ")", "touch": "(CTouch " + lib.CoqStr(in.Arg) + " " + lib.CoqStr(sha("x\n")) + ")", "fail": "(CFail " + in.Arg + "%Z)", "missing": "CMissing", "empty": "CLog"}[in.Kind]
 			cmds = append(cmds, lib.CoqPair(lib.CoqStrList(inspCommand(in)), kind))
 		}
@@ -2617,16 +2722,31 @@ func main() {
 			wr.Put(c)
 			os.RemoveAll(root)
 		}
-		if focus == "c06" && os.Getenv("TZ") == "" {
-			// a layout that expires while the process lives: accepted before, rejected after its expiry
+		for _, variant := range []string{"", "sublayout-"} {
+			if !(focus == "c06" && os.Getenv("TZ") == "") {
+				break
+			}
+			// a layout that expires while the process lives: accepted before, rejected after its expiry; variant
+			// "sublayout-": the layout itself is good for days, a sublayout delivered for one of its steps expires
 			rr := r.Fork()
 			sc := baseScenario(rr, focus, 0)
-			sc.Defect, sc.Klass, sc.Seed = "expires-between-verifications", "c06/expires-between-verifications", lib.Seed()
+			sc.Defect, sc.Klass, sc.Seed = variant+"expires-between-verifications", "c06/"+variant+"expires-between-verifications", lib.Seed()
 			sc.Entry = "plain"
 			sc.Insps = []InspSpec{{Name: "insp0", Kind: "log"}}
 			exp := time.Now().Add(3 * time.Second).UTC().Truncate(time.Second)
 			sc.Expires = exp.Format(intoto.ISO8601DateSchema)
-			root := filepath.Join(work, "run-expiring")
+			if variant != "" {
+				sc.Expires = future()
+				st := &sc.Steps[rr.Intn(len(sc.Steps))]
+				sub := baseScenario(rr, focus, 1)
+				sub.Insps, sub.Params, sub.Entry = nil, nil, "plain"
+				sub.Expires = exp.Format(intoto.ISO8601DateSchema)
+				st.SubSigner = st.Signers[0]
+				sub.Owners = []string{st.SubSigner}
+				st.Sub = sub
+				st.Threshold = len(st.Signers)
+			}
+			root := filepath.Join(work, "run-"+variant+"expiring")
 			w := materialise(sc, root, rr)
 			t1 := time.Now()
 			o1 := runImpl(sc, w)
